@@ -341,7 +341,9 @@ FilterTick0 ==
 (* Fork handling of commit_prove_state (a step of RecvProof): given the    *)
 (* tip change decided by PeerSync, what happens to the pipeline            *)
 (***************************************************************************)
-\* records with start > f are dropped; the first kept one (scanning from the latest) decides the target
+\* records with start > f are dropped; the first kept one (scanning from the latest) decides the target.
+\* KF-C04-spanning-record: a kept record may start at or before the fork block f and reach beyond it; it then
+\* holds hashes of the abandoned branch (see MatchedAtRightHeight)
 RECURSIVE KeepUpTo(_, _)
 KeepUpTo(recs, f) ==
     IF recs = <<>> THEN <<>>
@@ -528,6 +530,13 @@ MatchedAtRightHeight ==
     \A i \in 1..Len(mdb) : \A j \in 1..Len(mdb[i][3]) :
         LET b == mdb[i][3][j][1] IN
         \/ "KF-C06-blockhash" \in cfg.allow /\ b \in subst
+        \* KF-C04-spanning-record: the record was pending when the chain forked inside its range; the blocks above
+        \* the fork block are those of the abandoned branch
+        \/ /\ "KF-C04-spanning-record" \in cfg.allow
+           /\ b >= 1 /\ ~IsAnc(world, b, tip)
+           /\ mdb[i][1] <= Num(world, b) /\ Num(world, b) < mdb[i][1] + mdb[i][2]
+           /\ Num(world, CommonAnc(world, b, tip)) >= mdb[i][1]
+           /\ (TLCGet(44) = 0 => TLCSet(44, 1) /\ PrintT(<<"KNOWN-FINDING", "KF-C04-spanning-record", mdb[i], b>>))
         \/ /\ b >= 1
            /\ mdb[i][1] <= Num(world, b) /\ Num(world, b) < mdb[i][1] + mdb[i][2]
            /\ IsAnc(world, b, tip)
